@@ -1,10 +1,13 @@
 #!/bin/bash
-# usage: tools/seed_run.sh <patch.diff> <Cxx> [Cxx ...]   -- apply a seeded change to /repo, run checks, undo it
+# usage: tools/seed_run.sh <patch.diff (absolute path)> <Cxx> [Cxx ...]   -- apply a seeded change, run checks, undo it
+# works on $VERIF_REPO (default /repo)
+HERE=$(cd "$(dirname "$0")/.." && pwd)
+R=${VERIF_REPO:-/repo}
 patch=$1; shift
-if ! git -C /repo diff --quiet; then echo "/repo has uncommitted changes"; exit 2; fi
-git -C /repo apply "$patch" || { echo "patch does not apply"; exit 2; }
-trap 'git -C /repo checkout -- . ' EXIT
+if ! git -C $R diff --quiet; then echo "$R has uncommitted changes"; exit 2; fi
+git -C $R apply "$patch" || { echo "patch does not apply"; exit 2; }
+trap "git -C $R checkout -- ." EXIT
 for c in "$@"; do
-  out=$(cd /verif && ./check $c --tier ${TIER:-quick} 2>&1 | grep -v KNOWN-FINDING | tail -3)
-  echo "[$c] rc=$? :: $out"
+  out=$(cd $HERE && ./check $c --tier ${TIER:-quick} 2>&1 | grep -E "VIOLATION|Traceback" | tail -2)
+  echo "[$c] :: $out"
 done
